@@ -324,5 +324,6 @@ def register(R):
 
     cgc = R.contracts['s3transfer.utils:get_callbacks']
     cgc.props, cgc.checks, cgc.raises = ('C08', 'C09'), gc_checks, {}
+    cgc.bounded = 'subscriber lists of length 0, 1 and 2 (loop unrolled); arbitrary subscribers'
     cgc.param_alternatives = {'transfer_future': [(f'{n}_subscribers', tf_with_subscribers(n)) for n in (0, 1, 2)],
                               'callback_type': [(t, Const(t)) for t in ('queued', 'progress', 'done')]}
